@@ -70,6 +70,7 @@ class Keeper:
         # gate: status requests wait for a release carrying the answers of that iteration
         self.lock = threading.Condition()
         self.pending_status = 0      # status requests waiting at the gate
+        self.served = 0              # plans taken by a status request so far
         self.release = []            # queue of plans
         self.current = None
         self.calls = []              # host-side record of acquire/attest
@@ -105,7 +106,9 @@ class Keeper:
                     self.pending_status -= 1
                     return (503, "text/plain", b"gate timeout")
             self.current = self.release.pop(0)
+            self.served += 1
             self.pending_status -= 1
+            self.lock.notify_all()
             plan = self.current
         st = plan["status"]
         if st["kind"] == "http":
@@ -171,9 +174,16 @@ class Keeper:
         if not self.wait_at_gate(kick=kick):
             return None
         with self.lock:
+            before = self.served
             self.release.append(plan)
             self.lock.notify_all()
-        time.sleep(0.005)
+            # the waiting status request must take this plan before "at the gate again" can mean the NEXT iteration
+            end = time.time() + 8.0
+            while self.served == before:
+                left = end - time.time()
+                if left <= 0:
+                    return None
+                self.lock.wait(timeout=min(left, 0.1))
         if not self.wait_at_gate(timeout=8.0, kick=kick):
             return None
         return self.ctl(self.state_op)
